@@ -388,7 +388,8 @@ func (c *converter) Break() error {
 }
 
 func (c *converter) Continue() error {
-	c.addLine(fmt.Sprintf("goto %s", c.mustCurrentForLabel()))
+	// Jump to the head of the innermost open loop (not the loop that has been started last).
+	c.addLine(fmt.Sprintf("goto %s", c.fors[len(c.fors)-1].label))
 	return nil
 }
 
